@@ -437,7 +437,8 @@ class UTPM(Ring, RawAlgorithmsMixIn):
             return UTPM.exp(UTPM.log(self)*r)
         else:
             x_data = self.data
-            y_data = numpy.zeros_like(x_data)
+            # a complex exponent gives a complex result also for real x
+            y_data = numpy.zeros_like(x_data, dtype=numpy.result_type(x_data, r))
             self._pow_real(x_data, r, y_data)
             return self.__class__(y_data)
 
